@@ -53,7 +53,14 @@ type ShardResult struct {
 	Docs         int64            `json:"docs"`
 	Extra        map[string]int64 `json:"extra"`
 	Notes        []string         `json:"notes"`
+	// Digest is an order- and sharding-independent sum of per-evaluation hashes
+	// (item key, outcome, number of simulated events): the determinism self-test
+	// compares it across processes, worker counts and GOMAXPROCS values.
+	Digest uint64 `json:"digest"`
 }
+
+// Note folds one evaluation into the digest.
+func (r *ShardResult) Note(parts ...string) { r.Digest += Key64(parts...) }
 
 // NewShardResult allocates the maps.
 func NewShardResult() *ShardResult {
@@ -63,6 +70,7 @@ func NewShardResult() *ShardResult {
 // Merge folds o into r.
 func (r *ShardResult) Merge(o *ShardResult) {
 	r.Evaluations += o.Evaluations
+	r.Digest += o.Digest
 	r.Distinct += o.Distinct
 	r.SimEvents += o.SimEvents
 	r.SimTimeNs += o.SimTimeNs
